@@ -161,3 +161,90 @@ def PointTier_crop(self, cropStart, cropEnd, mode, rebaseToZero):
     if rebaseToZero is True:
         return PointTier(self.name, [Point(p.time - cropStart, p.label) for p in K], 0.0, cropEnd - cropStart)
     return PointTier(self.name, K, cropStart, cropEnd)
+
+
+# ---- C09: time shifting and concatenation -----------------------------------------------
+# "editTimestamps(offset) moves every entry by exactly offset keeping labels and order; entries
+# that end up wholly before time 0 are dropped and an interval crossing 0 is clipped to start at 0;
+# the span grows to contain moved entries and never shrinks; leaving the old span is reported as
+# the reportingMode says (nothing, a message, or an exception)."
+
+REPORTING_MODES = ("silence", "warning", "error")
+
+
+def IntervalTier_editTimestamps(self, offset, reportingMode):
+    if reportingMode not in REPORTING_MODES:
+        raise errors.WrongOption("reportingMode", reportingMode, REPORTING_MODES)
+    if reportingMode == "error" and exists(
+            self.entries, lambda e: offset + e.start < self.minTimestamp or offset + e.end > self.maxTimestamp):
+        raise errors.OutOfBounds("")
+    moved = [Interval(max(offset + e.start, 0), offset + e.end, e.label) for e in self.entries if offset + e.end > 0]
+    # hull of the old span and the moved entries: grows to contain them, never shrinks
+    return IntervalTier(self.name, moved, self.minTimestamp, self.maxTimestamp)
+
+
+def PointTier_editTimestamps(self, offset, reportingMode):
+    if reportingMode not in REPORTING_MODES:
+        raise errors.WrongOption("reportingMode", reportingMode, REPORTING_MODES)
+    if reportingMode == "error" and exists(
+            self.entries, lambda p: p.time + offset < self.minTimestamp or p.time + offset > self.maxTimestamp):
+        raise errors.OutOfBounds("")
+    moved = [Point(p.time + offset, p.label) for p in self.entries if p.time + offset >= 0]
+    return PointTier(self.name, moved, self.minTimestamp, self.maxTimestamp)
+
+
+# "Appending tier B to A yields A's entries unchanged followed by B's entries shifted by A's end
+# time, a span ending at the sum of both end times"
+
+
+def shift_entry(e, d):
+    if len(e) == 3:
+        return Interval(e.start + d, e.end + d, e.label)
+    return Point(e.time + d, e.label)
+
+
+def TextgridTier_appendTier(self, tier):
+    if self.tierType != tier.tierType:
+        raise errors.ArgumentError("")
+    shifted = [shift_entry(e, self.maxTimestamp) for e in tier.entries]
+    return type(self)(self.name, list(self.entries) + shifted, self.minTimestamp,
+                      self.maxTimestamp + tier.maxTimestamp)
+
+
+# ---- C08: insertSpace ------------------------------------------------------------------
+# "Inserting a blank of duration d at time s leaves every entry ending at or before s unchanged,
+# moves every entry starting at or after s later by exactly d, lengthens the span by d, and treats
+# an interval straddling s as selected: stretched by d, split into two same-labelled pieces around
+# the gap, left as is, or rejected with an error; points at t <= s stay and later points move by d."
+
+SPACE_MODES = ("stretch", "split", "no_change", "error")
+
+
+def straddles(e, s):
+    return e.start < s and s < e.end
+
+
+def insert_space_elem(e, s, d, mode):
+    if e.end <= s:
+        return [e]
+    if e.start >= s:
+        return [Interval(e.start + d, e.end + d, e.label)]
+    if mode == "stretch":
+        return [Interval(e.start, e.end + d, e.label)]
+    if mode == "split":
+        return [Interval(e.start, s, e.label), Interval(s + d, e.end + d, e.label)]
+    return [e]
+
+
+def IntervalTier_insertSpace(self, start, duration, collisionMode):
+    if collisionMode not in SPACE_MODES:
+        raise errors.WrongOption("collisionMode", collisionMode, SPACE_MODES)
+    if collisionMode == "error" and exists(self.entries, lambda e: straddles(e, start)):
+        raise errors.ArgumentError("")
+    out = [x for e in self.entries for x in insert_space_elem(e, start, duration, collisionMode)]
+    return IntervalTier(self.name, out, self.minTimestamp, self.maxTimestamp + duration)
+
+
+def PointTier_insertSpace(self, start, duration, _collisionMode):
+    out = [p if p.time <= start else Point(p.time + duration, p.label) for p in self.entries]
+    return PointTier(self.name, out, self.minTimestamp, self.maxTimestamp + duration)
